@@ -546,7 +546,7 @@ func (e *Engine) appendOp(st *State, cc *ssa.CallCommon, args []Val) Val {
 	if n, ok := singleElem(cc.Args[1]); ok && !isStr {
 		_ = n
 		v := fmt.Sprintf("(select (select %s (sl_ref %s)) (sl_off %s))", h, add.T, add.T)
-		newArr = fmt.Sprintf("(store %s %s %s)", base, e.arith("+", off, oldLen, tInt), v)
+		newArr = fmt.Sprintf("(store %s %s %s)", base, e.slIdx(s.T, oldLen), v)
 		_ = one
 	} else {
 		na := e.S.Fresh("app_arr", fmt.Sprintf("(Array %s %s)", e.S.IntSort(), e.sortOf(el)))
